@@ -1250,6 +1250,14 @@ struct ical_parser_s {
 };
 
 #define ICAL_EOP	((struct ical_vevent_s*)0x1U)
+
+static nummapstr_t
+nummapstr_dup(nummapstr_t x)
+{
+/* tasks own their strings, free_echs_task() frees them */
+	const char *s = nummapstr_str(x);
+	return s != NULL ? nummapstr_bang_str(strdup(s)) : x;
+}
 #define ESCCPY_OVERLONG	((size_t)-1)
 
 static size_t
@@ -1437,6 +1445,12 @@ _ical_proc(struct ical_parser_s p[static 1U])
 					memset(&p->ve, 0, sizeof(p->ve));
 					/* copy global task properties */
 					p->ve.t = p->globve.t;
+					p->ve.t.owner =
+						nummapstr_dup(p->globve.t.owner);
+					p->ve.t.run_as.u =
+						nummapstr_dup(p->globve.t.run_as.u);
+					p->ve.t.run_as.g =
+						nummapstr_dup(p->globve.t.run_as.g);
 					/* copy global scale */
 					p->ve.cal = p->globve.cal;
 					/* and set state to vevent */
@@ -1502,7 +1516,8 @@ _ical_proc(struct ical_parser_s p[static 1U])
 			 * to other vevents as well */
 			if (!p->ve.t.owner) {
 				/* bang owner */
-				p->ve.t.owner = p->globve.t.owner;
+				p->ve.t.owner =
+					nummapstr_dup(p->globve.t.owner);
 			}
 			if (!p->ve.t.umsk) {
 				/* bang umask */
@@ -1515,6 +1530,10 @@ _ical_proc(struct ical_parser_s p[static 1U])
 			if (!p->ve.t.run_as.u) {
 				/* bang run_as */
 				p->ve.t.run_as = p->globve.t.run_as;
+				p->ve.t.run_as.u =
+					nummapstr_dup(p->globve.t.run_as.u);
+				p->ve.t.run_as.g =
+					nummapstr_dup(p->globve.t.run_as.g);
 			}
 			/* copy global scale */
 			p->ve.cal = p->globve.cal;
